@@ -8,9 +8,9 @@
     number of buffer allocations is compared between model and code by the ledger's request counter.
     (statements printed by Coq from the lemmas they are proved by - tools/mkprop.py; statements only) *)
 From Coq Require Import Permutation Sorted.
-From CC Require Import Base.Prelude Base.Alloc Base.Ledger Generated.Status Generated.Constants Generated.Guards.
+From CC Require Import Base.Prelude Base.Alloc Base.Ledger Generated.Status Generated.Constants Generated.Guards Generated.Funcs.
 From CC Require Import Rbuf.RbufModel SPool.SPoolModel DPool.DPoolModel Array.ArrayModel Deque.DequeModel PQueue.PQueueModel Hash.HashModel Tst.TstModel Tree.TreeModel.
-From CC Require Import Array.ArrayMore Array.ArrayProofs Deque.DequeProofs5 Hash.HashProofsE PQueue.PQueueProofs2.
+From CC Require Import Array.ArrayMore Array.ArrayProofs Deque.DequeProofs5 Deque.DequeTie Hash.HashProofsE Hash.HashTie PQueue.PQueueProofs2.
 Local Open Scope N_scope.
 
 Theorem C20_array_size_le_capacity :
@@ -157,6 +157,18 @@ Theorem C20_hashtable_pow2 :
            lenN (ht_buckets t) = ht_cap t /\ ht_thr t = lf_mul (ht_cap t) (ht_num t) (ht_den t).
 Proof. exact CC.Hash.HashProofsE.ht_cap_pow2. Qed.
 Print Assumptions C20_hashtable_pow2.
+
+(** the model's round_pow_two is the whole-function translation of the source's (re-translated and compared on every run: Generated/SrcEq_hashtable.v) *)
+Theorem C20_hashtable_round_pow_two_source :
+  forall n : N, f_ht_round_pow_two n = round_pow_two n.
+Proof. exact CC.Hash.HashTie.round_pow_two_is_source. Qed.
+Print Assumptions C20_hashtable_round_pow_two_source.
+
+(** the model's upper_pow_two is the whole-function translation of the source's (Generated/SrcEq_deque.v) *)
+Theorem C20_deque_upper_pow_two_source :
+  forall n : N, f_deque_upper_pow_two n = upper_pow_two n.
+Proof. exact CC.Deque.DequeTie.upper_pow_two_is_source. Qed.
+Print Assumptions C20_deque_upper_pow_two_source.
 
 (** size <= threshold after every add, for all histories, under 1 <= threshold *)
 Theorem C20_hashtable_load :
